@@ -197,15 +197,17 @@ def run(ctx):
 			continue
 		# stop()/start(): restart from the start frame, deadlines relative to the new start
 		if r.random() < 0.3:
-			rn.trace = []
-			rn.nticks = r.choice((3, 50, 150))
-			if not rn.go():
-				ctx.violation("restart", desc, what = "clock thread hung after stop()/start()")
-				continue
-			what = check_trace(ctx, rn, T, desc, restarted = True)
-			ctx.count("restarts")
-			if what:
-				ctx.violation("restart", desc, what = "after stop()/start(): " + what)
+			for cycle in range(r.choice((1, 2, 3))):
+				rn.trace = []
+				rn.nticks = r.choice((3, 50, 150))
+				if not rn.go():
+					ctx.violation("restart", desc, what = "clock thread hung after stop()/start() number %d" % (cycle + 1))
+					break
+				what = check_trace(ctx, rn, T, desc, restarted = True)
+				ctx.count("restarts")
+				if what:
+					ctx.violation("restart", desc, what = "after stop()/start() number %d: %s" % (cycle + 1, what))
+					break
 	sim.restore_time()
 	ctx.require("runs", 50)
 	ctx.require("ticks", 10000)
